@@ -167,6 +167,9 @@ def _candidate(fb, g, vocab):
         return False
     if _is_pure_scalar_function(g):
         return False
+    rt9 = g.raw.get("rett") or {}
+    if rt9.get("k") == "ptr" and rt9.get("prec") and any(z.get("null") for z in g.nodes()):
+        return False  # a finder: the element's address or null
     for x in g.nodes():
         if x.get("k") == "decl" and any(v.get("static") for v in x.get("vars", [])):
             return False
